@@ -14,6 +14,11 @@ CHECKS = {
          "Every lowered node is executed point by point by an interpreter that shares no code with pytato and compared exactly with NumPy; slices/int indices (axis length 0..6), reshape pairs, rolls, permutations and stack/concatenate are enumerated exhaustively inside the stated bounds, advanced indexing/einsum/CSR are seeded-random. In-mask out-of-bounds subscripts are reported as events. This is the right level because the defects are parameter-specific index arithmetic that a complete small-scope enumeration exposes.",
          "Trusts NumPy as reference and vf.oracle.ilinterp as the documented index-lambda meaning (kept honest by exact agreement with NumPy on every case). Axis lengths > 6 are not observed.",
          "DESIGN.md §3 C02"),
+ "C19": ("exploration",
+         "differential runtime oracle: HighLevelOp interpreted with NumPy vs independent pointwise evaluation of the lambda; recognition table for API-produced lambdas; hand-built near-miss lambdas",
+         "Runs the real raiser on every lambda kind the public API produces (operator x operand-form x dtype-pair x shape-relation grid, every reduction axis subset) and on 28 near-miss shapes; the returned op is executed with NumPy on the identified operands and compared with the lambda's pointwise value (exact for int/bool, 8 ulp otherwise); crashes other than UnknownIndexLambdaExpr and unrecognised API lambdas are violations.",
+         "Trusts NumPy ufuncs as the meaning of each HighLevelOp; HighLevelOps carry no dtype so the NumPy result is cast to the lambda's declared dtype before comparing. Expression shapes outside the generated families are not observed.",
+         "DESIGN.md §3 C19"),
 }
 
 NOT_YET = {
